@@ -84,7 +84,7 @@ Proof.
   intros [H1 _] [H2 _]. apply aq_pre. unfold cplx_atom. repeat apply plain_app; auto; destruct g; reflexivity.
 Qed.
 Lemma null_pre : atom_pre (ARaw s_null).
-Proof. split; [intros rest f _; reflexivity|split; [split; reflexivity|reflexivity]]. Qed.
+Proof. split; [intros rest f _ Hf; destruct f; [cbn in Hf; lia|reflexivity]|split; [split; reflexivity|reflexivity]]. Qed.
 
 Section S.
 Variable c : cfg.
